@@ -280,6 +280,180 @@ func (c *Ctx) onlyWithin(fn *core.Func, within map[*core.Func]bool, depth int) b
 	return true
 }
 
+// rootsOf: the functions of the reviewed tree whose code fn's body is part of.
+// A reviewed function is its own root; a helper introduced after the review
+// belongs to every reviewed function that references it through such helpers
+// (call, go, function value - all of them are "code of" the root for the
+// who-may-write rules). A helper nobody references is its own root.
+func (c *Ctx) rootsOf(fn *core.Func) []*core.Func {
+	if pinnedFuncs[fn.Name] {
+		return []*core.Func{fn}
+	}
+	seen := map[*core.Func]bool{fn: true}
+	var out []*core.Func
+	var walk func(f *core.Func, depth int)
+	walk = func(f *core.Func, depth int) {
+		if depth > 4 {
+			return
+		}
+		for _, s := range c.G.Callers(f) {
+			if seen[s.Fn] {
+				continue
+			}
+			seen[s.Fn] = true
+			if pinnedFuncs[s.Fn.Name] {
+				out = append(out, s.Fn)
+			} else {
+				walk(s.Fn, depth+1)
+			}
+		}
+	}
+	walk(fn, 0)
+	if len(out) == 0 {
+		return []*core.Func{fn}
+	}
+	sort.Slice(out, func(i, j int) bool { return out[i].Name < out[j].Name })
+	return out
+}
+
+func (c *Ctx) allRoots(fn *core.Func, pred func(*core.Func) bool) bool {
+	for _, r := range c.rootsOf(fn) {
+		if !pred(r) {
+			return false
+		}
+	}
+	return true
+}
+
+// traceParam: an identifier that names a parameter of a helper introduced
+// after the review, where the helper has exactly one call site, stands for the
+// argument passed there (followed through at most four such helpers).
+func (c *Ctx) traceParam(e ast.Expr) ast.Expr {
+	p := c.P
+	for depth := 0; depth < 4; depth++ {
+		id, ok := ast.Unparen(e).(*ast.Ident)
+		if !ok {
+			return e
+		}
+		o := p.Info.Uses[id]
+		if o == nil {
+			return e
+		}
+		var owner *core.Func
+		idx := -1
+		for _, fn := range p.SortedFuncs() {
+			if pinnedFuncs[fn.Name] || fn.Decl.Body == nil {
+				continue
+			}
+			k := 0
+			for _, f := range fn.Decl.Type.Params.List {
+				if len(f.Names) == 0 {
+					k++
+				}
+				for _, n := range f.Names {
+					if p.Info.Defs[n] == o {
+						owner, idx = fn, k
+					}
+					k++
+				}
+			}
+		}
+		if owner == nil {
+			return e
+		}
+		callers := c.G.Callers(owner)
+		if len(callers) != 1 || callers[0].Call == nil || callers[0].Ref || idx >= len(callers[0].Call.Args) || callers[0].Call.Ellipsis.IsValid() {
+			return e
+		}
+		e = callers[0].Call.Args[idx]
+	}
+	return e
+}
+
+// paramIndex: o is the i-th parameter of a helper introduced after the review.
+func (c *Ctx) paramIndex(o types.Object) (*core.Func, int) {
+	p := c.P
+	if o == nil {
+		return nil, -1
+	}
+	for _, fn := range p.SortedFuncs() {
+		if pinnedFuncs[fn.Name] || fn.Decl.Body == nil || o.Pos() < fn.Decl.Pos() || o.Pos() > fn.Decl.End() {
+			continue
+		}
+		k := 0
+		for _, f := range fn.Decl.Type.Params.List {
+			if len(f.Names) == 0 {
+				k++
+			}
+			for _, n := range f.Names {
+				if p.Info.Defs[n] == o {
+					return fn, k
+				}
+				k++
+			}
+		}
+	}
+	return nil, -1
+}
+
+// argsReaching: the argument expressions that reach parameter o of a helper
+// (introduced after the review) from the call sites inside fn or the helpers
+// extracted from fn. nil when o is not such a parameter or a site cannot be read.
+func (c *Ctx) argsReaching(o types.Object, fn *core.Func) []ast.Expr {
+	h, idx := c.paramIndex(o)
+	if h == nil {
+		return nil
+	}
+	in := map[*core.Func]bool{fn: true}
+	for _, x := range helpersOf(fn) {
+		in[x] = true
+	}
+	var out []ast.Expr
+	for _, s := range c.G.Callers(h) {
+		if !in[s.Fn] {
+			continue
+		}
+		if s.Call == nil || s.Ref || s.Call.Ellipsis.IsValid() || idx >= len(s.Call.Args) {
+			return nil
+		}
+		out = append(out, s.Call.Args[idx])
+	}
+	return out
+}
+
+// flowsFrom: e is the variable target, or a parameter of a helper extracted
+// from fn that receives target (through at most four helpers) at every call
+// site inside fn's code.
+func (c *Ctx) flowsFrom(e ast.Expr, target types.Object, fn *core.Func, depth int) bool {
+	id, ok := ast.Unparen(e).(*ast.Ident)
+	if !ok || depth > 4 || target == nil {
+		return false
+	}
+	o := c.P.Info.Uses[id]
+	if o == target {
+		return true
+	}
+	args := c.argsReaching(o, fn)
+	if len(args) == 0 {
+		return false
+	}
+	for _, a := range args {
+		if !c.flowsFrom(a, target, fn, depth+1) {
+			return false
+		}
+	}
+	return true
+}
+
+// sitesOf: the effect sites of fn and of the helpers extracted from it.
+func (c *Ctx) sitesOf(fn *core.Func) []*core.Site {
+	out := append([]*core.Site{}, c.G.Sites[fn]...)
+	for _, h := range helpersOf(fn) {
+		out = append(out, c.G.Sites[h]...)
+	}
+	return out
+}
+
 // curGraph is the reference graph of the run (one Ctx per process).
 var curGraph *core.Graph
 
